@@ -953,7 +953,7 @@ func (h *H) ccittWide() {
 func (h *H) ccittCase(f pdf.FilterCCITTFax, data []byte, cols, rows int) {
 	e := h.e
 	label := fmt.Sprintf("K=%d EndOfLine=%v EncodedByteAlign=%v EndOfBlock=%v Rows=%d Columns=%d BlackIs1=%v", f.K, f.EndOfLine, f.EncodedByteAlign, !f.IgnoreEndOfBlock, f.Rows, cols, f.BlackIs1)
-	if f.K == 0 && (cols <= 300 || cols <= 10000 && e.Rand.IntN(4) == 0 || e.Rand.IntN(8) == 0) {
+	if f.K == 0 && (cols <= 300 || cols <= 10000 && e.Rand.IntN(4) == 0) {
 		// the Coq model of T.4 one-dimensional coding as a second referee (both directions)
 		if enc, err := libEncode(f, pdf.V1_7, data); err == nil {
 			geoMax := max(1, min(1<<16, (128<<20)/cols))
